@@ -343,6 +343,22 @@ def h_step(S, B):
             else:
                 S.check("failed-operation-reports-NamingError", r_sql[0] == "NamingError")
                 S.check("failed-operation-has-no-effect", after_sql == pre)
+        # a later registration sees only its own tags (sqlite reuses the row id of a removed entry, so tag rows that
+        # were left behind would be inherited); checked on the observable contents of both back-ends
+        if op in B["MUTATING"]:
+            if not S.symbolic:
+                FailingConn.state["fail_at"] = None
+            else:
+                sqlmodel.DB[0].fail_at = None
+            f_mem = outcome(lambda: ns_mem.register("zz.later", "PYRO:later@h:3", metadata=[]))
+            f_sql = outcome(lambda: ns_sql.register("zz.later", "PYRO:later@h:3", metadata=[]))
+            later_mem = {n: (u, frozenset(m)) for n, (u, m) in mem.items()}
+            later_sql = sql_contents(S, sql)
+            S.known("C14-sqlite-prefix-queries-use-LIKE-wildcards-and-fold-ascii-case", like_sensitive,
+                    checks=["later-registration-has-exactly-its-own-tags"])
+            S.check("later-registration-has-exactly-its-own-tags", f_mem[0] == "value" and f_sql[0] == "value" and
+                    later_sql.get("zz.later") == later_mem.get("zz.later") and
+                    (fail_at is not None or later_sql == later_mem))
         S.observe("results", (r_ref[0], r_mem[0], r_sql[0], canon(r_mem[1]) if r_mem[0] == "value" else None))
         S.observe("sql", sorted(after_sql.keys()))
     finally:
